@@ -66,6 +66,8 @@ Keep == UNCHANGED <<wr, rc, seen, gap, nr, nl, cl, dead, added, live, oc, ec, st
 \* everything written to the channels that are registered (as far as returned calls tell) has been delivered
 AllDelivered == \A c \in live : rc[c] = wr[c] /\ ~gap[c]
 AllClosed == live \subseteq cl
+\* C05's precondition: every input has had data waiting since creation (the harness keeps them full) - over once an input is closed
+Saturated == Cfg.sat /\ cl = {}
 
 Step ==
   /\ l < Len(Events) /\ Events[l + 1].e # "Reset"
@@ -89,13 +91,13 @@ Step ==
                                   ELSE IF e.k <= rc[e.c] THEN {"C02", "C16"}
                                   ELSE IF e.k # rc[e.c] + 1 /\ ~stop THEN {"C02"} ELSE {})
                             \cup Also17(IF InFlight + 1 > Cfg.H THEN {"C01"} ELSE {})
-                            \cup (IF Cfg.sat /\ e.p \in Prios /\ nr[e.p] + 1 - nl[e.p] > ShareOf(e.p) THEN {"C05"} ELSE {})
+                            \cup (IF Saturated /\ e.p \in Prios /\ nr[e.p] + 1 - nl[e.p] > ShareOf(e.p) THEN {"C05"} ELSE {})
                             \cup (IF oc THEN {"C07"} ELSE {})
                        /\ UNCHANGED <<wr, nl, cl, dead, added, live, oc, ec, stop, stopret, grace>>
        [] e.e = "L" -> nl' = [nl EXCEPT ![e.p] = @ + 1] /\ UNCHANGED <<wr, rc, seen, gap, nr, cl, dead, added, live, oc, ec, stop, stopret, grace, viol>>
        [] e.e = "Q" -> /\ viol' = viol
                             \cup Also17(IF SumOver([p \in Prios |-> HeldOf(e, p)], Prios) > Cfg.H THEN {"C01"} ELSE {})
-                            \cup (IF Cfg.sat /\ \E p \in Prios : HeldOf(e, p) # ShareOf(p) THEN {"C05"} ELSE {})
+                            \cup (IF Saturated /\ \E p \in Prios : HeldOf(e, p) # ShareOf(p) THEN {"C05"} ELSE {})
                        /\ Keep
        [] e.e = "OC" -> /\ oc' = TRUE
                         /\ viol' = viol
